@@ -8,7 +8,7 @@ the integral datasets, so those cases are unchanged).  No rounding, no tolerance
 iff their scaled integers are, and ordered the same way.  (-0.0 and 0.0 are the same number, as for the
 IEEE comparisons the library performs; NaN is None; +-inf are outside the modelled scope, as before.)
 
-  Fl, gnum, scale_exp, resolve, coq_mismatches, coq_term     exact transport of floats
+  Fl, gnum, transport, coq_mismatches, coq_term              exact transport of floats
   COORD_MODES, coord_tables, map_coords                      value classes for float datasets
   fine_boxes                                                 boxes touching a float extent exactly / 1 ulp beyond
   float_synth_docs                                           synthetic metadata documents with float values
@@ -72,52 +72,71 @@ def scaled(x, k):
     return M << (e + k)
 
 
-def scale_exp(obj):
-    """the exponent k that makes every Fl inside obj integral"""
-    k = 0
+def _floats_in(obj):
+    out = []
     stack = [obj]
     while stack:
         v = stack.pop()
         if isinstance(v, Fl):
-            k = max(k, dyadic_exp(v))
+            out.append(float(v))
         elif isinstance(v, C.Some):
             stack.append(v.v)
         elif isinstance(v, C.Rec):
             stack.extend(v.args)
         elif isinstance(v, (list, tuple)):
             stack.extend(v)
-    return k
+    return out
 
 
-def resolve(obj, k):
-    """obj with every Fl x replaced by Some (x * 2^k)"""
+def _subst(obj, f):
+    """obj with every Fl x replaced by Some (f x)"""
     if isinstance(obj, Fl):
-        return C.Some(scaled(obj, k))
+        return C.Some(f(float(obj)))
     if isinstance(obj, C.Some):
-        return C.Some(resolve(obj.v, k))
+        return C.Some(_subst(obj.v, f))
     if isinstance(obj, C.Rec):
-        return C.Rec(obj.ctor, *[resolve(a, k) for a in obj.args])
+        return C.Rec(obj.ctor, *[_subst(a, f) for a in obj.args])
     if isinstance(obj, list):
-        return [resolve(a, k) for a in obj]
+        return [_subst(a, f) for a in obj]
     if isinstance(obj, tuple):
-        return tuple(resolve(a, k) for a in obj)
+        return tuple(_subst(a, f) for a in obj)
     return obj
 
 
+MAXBITS = 256       # Coq reads a decimal literal in quadratic time: keep the scaled integers short
+
+
+def transport(obj):
+    """(obj with its floats turned into integers, how).  how = ('scale', k): every number multiplied by
+    2^k (exact; k = 0 for integral data).  When that would need integers beyond MAXBITS bits (subnormals
+    next to 1e300) how = ('rank', values): every number replaced by its rank among the distinct numbers
+    of this very case (0, 1, 2, ... in increasing order) -- the model only copies and compares bounds
+    values, so it commutes with any strictly increasing renaming of the numbers of a case, and a value
+    the implementation reports that is not one of the case's numbers gets a rank of its own."""
+    vals = _floats_in(obj)
+    k = max([dyadic_exp(x) for x in vals] or [0])
+    bits = max([abs(scaled(x, k)).bit_length() for x in vals] or [0])
+    if bits <= MAXBITS:
+        return _subst(obj, lambda x: scaled(x, k)), ('scale', k)
+    distinct = sorted(set(0.0 if x == 0 else x for x in vals))
+    rank = {x: i for i, x in enumerate(distinct)}
+    return _subst(obj, lambda x: rank[0.0 if x == 0 else x]), ('rank', distinct)
+
+
 def coq_mismatches(imports, fn, case_ty, res_ty, cases, results, **kw):
-    """common.coq_mismatches after scaling each (case, result) pair by its own power of two"""
+    """common.coq_mismatches after turning the floats of each (case, result) pair into integers"""
     rc, rr = [], []
     for c, r in zip(cases, results):
-        k = scale_exp((c, r))
-        rc.append(resolve(c, k))
-        rr.append(resolve(r, k))
+        (c2, r2), _ = transport((c, r))
+        rc.append(c2)
+        rr.append(r2)
     return C.coq_mismatches(imports, fn, case_ty, res_ty, rc, rr, **kw)
 
 
 def coq_term(obj):
-    """(Gallina text of obj scaled to integers, the exponent used)"""
-    k = scale_exp(obj)
-    return C.coq(resolve(obj, k)), k
+    """(Gallina text of obj with integers for its floats, how they were obtained)"""
+    o2, how = transport(obj)
+    return C.coq(o2), how
 
 
 def bbox_rows(frame):
@@ -258,6 +277,9 @@ def map_coords(arr, tx, ty, subtype='float64'):
     """the geometry array with every integer coordinate v replaced by the table value (x: tx, y: ty)"""
     kind = U.kind_of_dtype(arr.dtype)
     els = U.array_pylist(arr)
+    if kind == 'point':
+        # a point array is a fixed-size binary array: one element = the bytes of (x, y)
+        els = [None if e is None else [float(c) for c in np.frombuffer(e, dtype=arr.numpy_dtype)] for e in els]
     return G.make_array(kind, [_map_el(e, tx, ty) for e in els], subtype)
 
 
